@@ -1121,6 +1121,10 @@ class Normalizer:
             return self.nf(a[0])  # bool() of something that already is a truth value
         if op == "not" and isinstance(a[0], Term) and a[0].op == "not":
             return self.nf(a[0].args[0])
+        if op == "invert" and len(a) == 1 and isinstance(a[0], Term) and a[0].op in ("all", "any") and a[0].args and isinstance(a[0].args[0], Term) and a[0].args[0].op in ("eq", "ne") and len(a[0].args[0].args) == 2:
+            # De Morgan over an axis: ~all(x == y) = any(x != y), ~any(x != y) = all(x == y) (exact complements, NaN included)
+            in_ = a[0].args[0]
+            return self.nf(Term("any" if a[0].op == "all" else "all", Term("ne" if in_.op == "eq" else "eq", *in_.args), *a[0].args[1:]))
         if op == "cumsum" and len(a) == 1 and isinstance(a[0], Term) and a[0].op == "concat" and len(a[0].args) == 2 and isinstance(a[0].args[0], Term) and a[0].args[0].op == "list" and len(a[0].args[0].args) == 1 and _is_zero_t(a[0].args[0].args[0]):
             # running sums of [0] + v: a zero followed by the running sums of v
             return self.nf(Term("stack", Term("const", Fraction(0)), a[0].args[0], Term("cumsum", a[0].args[1])))
@@ -1189,6 +1193,12 @@ class Normalizer:
                 from .interp import subst_term as _subst
 
                 return self.nf(_subst(base.args[2], {Term("lv", base.args[0]): idx}))
+            if isinstance(base, Term) and base.op == "comp" and len(base.args) == 3 and isinstance(base.args[1], Term) and base.args[1].op == "range" and len(base.args[1].args) == 2 and (_is_zero_t(base.args[1].args[0]) or repr(base.args[1].args[0]) in ("0", "dim(0)")) and isinstance(idx, Term) and idx.op == "tuple" and len(idx.args) >= 2 and isinstance(idx.args[0], Term) and idx.args[0].op == "lv" and isinstance(base.args[2], Term):
+                # [e(j) for j in range(n)][k, rest] = e(k)[rest]
+                from .interp import subst_term as _subst
+
+                rest_ = idx.args[1] if len(idx.args) == 2 else Term("tuple", *idx.args[1:])
+                return self.nf(Term("getitem", _subst(base.args[2], {Term("lv", base.args[0]): idx.args[0]}), rest_))
             # a[lo:hi][k] = a[lo + k] for a position k >= 0 counted by a loop (wherever defined)
             if isinstance(base, Term) and base.op == "getitem" and isinstance(base.args[1], Term) and base.args[1].op == "slice" and len(base.args[1].args) == 3 and _is_none_t(base.args[1].args[2]) and isinstance(idx, Term) and idx.op == "lv":
                 lo_ = base.args[1].args[0]
